@@ -3,3 +3,5 @@
 package lexer
 
 func verifTick() {}
+
+func verifNext() {}
